@@ -143,6 +143,39 @@ func ruleLevenshtein(c *Ctx, r *Report, funcs []*ssa.Function) {
 			}
 		})
 	}
+	// updates made by a helper of the package that an initialiser hands the table to: fillRow(Levenshtein, i)
+	paramArg := map[*ssa.Parameter]ssa.Value{}
+	if len(ups) == 0 {
+		for f := range inits {
+			instrs(f, func(in ssa.Instruction) {
+				cl, ok := in.(*ssa.Call)
+				if !ok {
+					return
+				}
+				h := cl.Call.StaticCallee()
+				if h == nil || h.Blocks == nil || h.Pkg != f.Pkg || h == f || len(h.Params) != len(cl.Call.Args) {
+					return
+				}
+				for k, a := range cl.Call.Args {
+					if !isLoadOf(a, g) {
+						continue
+					}
+					n := 0
+					instrs(h, func(in2 ssa.Instruction) {
+						if mu, ok := in2.(*ssa.MapUpdate); ok && mu.Map == ssa.Value(h.Params[k]) {
+							ups = append(ups, upd{mu, h})
+							n++
+						}
+					})
+					if n > 0 {
+						for k2, a2 := range cl.Call.Args {
+							paramArg[h.Params[k2]] = a2
+						}
+					}
+				}
+			})
+		}
+	}
 	if len(ups) == 0 {
 		// built in a constructor stage and assigned whole: Levenshtein = newTable()
 		for f := range inits {
@@ -200,15 +233,24 @@ func ruleLevenshtein(c *Ctx, r *Report, funcs []*ssa.Function) {
 			r.undecided("T4", where, "key-shape", pos, why)
 			continue
 		}
-		if why := fullByteLoop(i); why != "" {
+		// an index that is the helper's parameter stands for the caller's loop variable
+		outerOf := func(v ssa.Value) ssa.Value {
+			if p, ok := v.(*ssa.Parameter); ok {
+				if a, ok := paramArg[p]; ok {
+					return a
+				}
+			}
+			return v
+		}
+		if why := fullByteLoop(outerOf(i)); why != "" {
 			r.undecided("T4", where, "loop-shape", pos, "outer/inner index: "+why)
 			continue
 		}
-		if why := fullByteLoop(j); why != "" {
+		if why := fullByteLoop(outerOf(j)); why != "" {
 			r.undecided("T4", where, "loop-shape", pos, "outer/inner index: "+why)
 			continue
 		}
-		if i == j {
+		if outerOf(i) == outerOf(j) {
 			r.violated("T4", where, "key", pos, "both key bytes come from the same loop variable: only the diagonal is populated")
 			continue
 		}
